@@ -32,7 +32,11 @@ CONSTANTS Shapes,      \* set of <<H,W>>: frames of the 2D masks explored (every
           Lattice,     \* coordinates (units) of the single points explored exhaustively for the radial minimum
           TinyEps,     \* indices of the tiny lengths eps (1e-13, 1e-15, 2^-60, ...: far below any lattice unit) ...
           TinyDirs,    \* ... and small integer directions <<dy,dx>>: the coordinate eps*(dy,dx), a hair away from the centre
-          TinyShapes   \* frames of the 2D grids whose central pixel is such a coordinate
+          TinyShapes,  \* frames of the 2D grids whose central pixel is such a coordinate
+          HistShapes,  \* history machine: frames of the 2D grids (every non-empty mask) ...
+          HistLens,    \* ... lengths of the 1D grids (every non-empty 1D mask) and irregular coordinate sets ...
+          HistGeoms,   \* ... geometries <<s, cy, cx, R>> of the 2D grids (R alone is used for irregular sets) ...
+          HistLen      \* ... and the number of decorated calls made on ONE grid object
 
 Zero == -1   \* source tag "this position holds 0" (a masked position of a native view)
 
@@ -174,8 +178,12 @@ Walk(depth, flag, count) ==
 (* grid (a mask, or a number of irregular points) and where needed a geometry; every action is one decorated call (an  *)
 (* atomic step: the library is sequential and the call returns a value).                                               *)
 
-VARIABLES inst, phase, obs
-vars == << inst, phase, obs >>
+VARIABLES inst,    \* the call (single-step machine) or the grid and the number of calls (history machine)
+          phase, obs,
+          grid,    \* the caller's grid OBJECT: the tag of the coordinate it holds at every slim position.  It is built as
+                   \* 0 .. n-1 and it is INPUT to every decorated call: no call may write to it.
+          hist     \* history machine: the calls made so far on the one grid object, each with the coordinates it worked from
+vars == << inst, phase, obs, grid, hist >>
 
 Masks(sh) == (SUBSET Cells(sh[1], sh[2])) \ {{}}
 AllCells(n) == Cells(1, n)
@@ -220,6 +228,8 @@ Instances == WrapInst \cup ProjectInst \cup TransformInst \cup RelocInst \cup Ti
 Init == /\ inst \in Instances
         /\ phase = "call"
         /\ obs = << >>
+        /\ grid = Iota(Cardinality(inst.u))
+        /\ hist = << >>
 
 NPts == Cardinality(inst.u)
 IsTiny == inst.par[1] < 0
@@ -243,7 +253,8 @@ Returns ==
                       h |-> inst.h, w |-> inst.w,
                       u |-> LET ss == SlimSeq(inst.u, inst.h, inst.w) IN [j \in 1 .. Len(ss) |-> Lin(ss[j], inst.w)],
                       par |-> inst.par, depth |-> inst.depth, flag |-> inst.flag]))
-    /\ UNCHANGED inst
+    /\ grid' = grid           \* the input grid is read, never written
+    /\ UNCHANGED << inst, hist >>
 
 \* one action per public decorator (and one for the usual stack to_array/to_grid o transform o relocate_to_radial_minimum)
 ToArray == inst.api = "to_array" /\ Returns
@@ -258,9 +269,55 @@ Next == ToArray \/ ToGrid \/ ToVectorYX \/ ProjectGrid \/ Transform \/ RelocateT
 Spec == Init /\ [][Next]_vars
 
 -----------------------------------------------------------------------------
+(* The history machine: ONE grid object, built once, is handed to several decorated calls one after the other (a       *)
+(* relocating call first where the grid kind has one, then any).  Every call works from the coordinates the object     *)
+(* holds when it is made and leaves the object as it found it; hence every call of every history is evaluated at the  *)
+(* coordinates the caller built -- entry k of the 2nd, 3rd, ... call still belongs to coordinate k of that grid.       *)
+HApis(gk) == IF gk = "g1d" THEN {"to_array", "to_grid", "project"}
+             ELSE {"reloc", "stack_array", "to_array", "to_grid", "to_vector_yx", "project"}
+HFirst(gk) == IF gk = "g1d" THEN HApis(gk) ELSE {"reloc", "stack_array"}
+HistInstances ==
+    UNION { UNION { { Mk("history", "g2d", "values", FALSE, sh[1], sh[2], u, g, HistLen, FALSE) : u \in Masks(sh) }
+                    : sh \in HistShapes } : g \in HistGeoms }
+    \cup { Mk("history", "irr", "values", FALSE, 1, n, AllCells(n), << 0, 0, 0, R >>, HistLen, FALSE)
+             : n \in HistLens, R \in { g[4] : g \in HistGeoms } }
+    \cup UNION { { Mk("history", "g1d", "values", FALSE, 1, n, u, NoPar, HistLen, FALSE) : u \in Masks(<<1, n>>) } : n \in HistLens }
+
+InitH == /\ inst \in HistInstances
+         /\ phase = "history"
+         /\ obs = << >>
+         /\ grid = Iota(Cardinality(inst.u))
+         /\ hist = << >>
+
+\* one more decorated call `a` on the same object
+HCall(a) ==
+    /\ phase = "history"
+    /\ Len(hist) < inst.depth
+    /\ a \in (IF hist = << >> THEN HFirst(inst.gk) ELSE HApis(inst.gk))
+    /\ hist' = Append(hist, [api |-> a, seen |-> grid])
+    /\ grid' = grid           \* whatever the call hands to the function (moved, projected, transformed) is a NEW array
+    /\ (Len(hist) + 1 = inst.depth) =>
+           PrintT(ToJson([k |-> "hist", gk |-> inst.gk, h |-> inst.h, w |-> inst.w,
+                          u |-> LET ss == SlimSeq(inst.u, inst.h, inst.w) IN [j \in 1 .. Len(ss) |-> Lin(ss[j], inst.w)],
+                          par |-> inst.par, calls |-> [j \in 1 .. Len(hist) + 1 |-> IF j <= Len(hist) THEN hist[j].api ELSE a]]))
+    /\ UNCHANGED << inst, phase, obs >>
+
+NextH == \E a \in HApis(inst.gk) : HCall(a)
+SpecH == InitH /\ [][NextH]_vars
+
+-----------------------------------------------------------------------------
 (* Layer 3: properties of the design, checked by TLC on every instance *)
 
 Returned == phase = "returned"
+
+\* the caller's grid is what the caller built, in every state of both machines; in a history every call worked from
+\* exactly those coordinates; and no step of either machine writes to the grid
+GridAsBuilt == grid = Iota(Cardinality(inst.u))
+HistorySeesBuiltGrid == \A j \in DOMAIN hist : hist[j].seen = Iota(Cardinality(inst.u))
+HistoryShape == phase = "history" =>
+                  /\ Len(hist) <= inst.depth
+                  /\ \A j \in DOMAIN hist : hist[j].api \in (IF j = 1 THEN HFirst(inst.gk) ELSE HApis(inst.gk))
+GridNeverWritten == [][grid' = grid]_vars
 Wraps == inst.api \in {"to_array", "to_grid", "to_vector_yx", "project", "stack_array", "stack_grid"}
 
 \* every explored call is one the property speaks about, and gets a container class of the grid's own family
